@@ -7,10 +7,9 @@ SPECS = {
         "ext": "py2coq_mc",
         "header": "From Coq Require Import ZArith Reals Bool List.\nFrom RV Require Import Base.RB Base.RCeilMC.\nOpen Scope R_scope.\n",
         "funcs": [
-            # bias test on the last three level means ml[-3], ml[-2], ml[-1]
+            # bias test on the last (up to) three level means; ml stays a list, indexing and len() stay visible
             {"py": "criteria_giles", "coq": "criteria_giles", "pyargs": ["alpha", "ml", "rmse"],
-             "args": [("alpha", "R"), ("m3", "R"), ("m2", "R"), ("m1", "R"), ("rmse", "R")], "ret": "bool",
-             "subst": {"ml[-1]": "m1", "ml[-2]": "m2", "ml[-3]": "m3"}},
+             "args": [("alpha", "R"), ("ml", "list R"), ("rmse", "R")], "ret": "bool", "list_param": "ml"},
             # scalar core of the allocation, one level: vl, cl = V_l, C_l; S = sum_k sqrt(V_k C_k)
             {"py": "compute_mc_paths_giles", "coq": "giles_alloc_core", "pyargs": ["rmse", "vl", "cl"],
              "args": [("rmse", "R"), ("vl", "R"), ("cl", "R"), ("S", "R")], "ret": "R",
